@@ -216,7 +216,34 @@ static void fill(std::vector<uint64_t> &v, uint64_t seed)
         x = r.word();
 }
 
-static void do_lh(vh::Out &o, long long ci, uint64_t len, uint64_t seed)
+// structured contents: 0 seeded words (any representation); 1 all zero; 2 one constant word; 3 period 8 (every block the
+// same); 4 period 4; 5 period 12; 6 two blocks A,B laid out A,B,A,A,...; 7 all 2^64-1
+static void fill_pat(std::vector<uint64_t> &v, uint64_t seed, int pat)
+{
+    fill(v, seed);
+    if (pat == 0)
+        return;
+    std::vector<uint64_t> base(v.begin(), v.begin() + std::min<size_t>(v.size(), 24));
+    base.resize(24, seed * 0x9E3779B97F4A7C15ULL + 12345);
+    for (size_t i = 0; i < v.size(); i++)
+    {
+        switch (pat)
+        {
+        case 1: v[i] = 0; break;
+        case 2: v[i] = base[0]; break;
+        case 3: v[i] = base[i % 8]; break;
+        case 4: v[i] = base[i % 4]; break;
+        case 5: v[i] = base[i % 12]; break;
+        case 6: v[i] = ((i / 8) % 4 == 1) ? base[8 + i % 8] : base[i % 8]; break;
+        default: v[i] = 0xFFFFFFFFFFFFFFFFULL; break;
+        }
+    }
+}
+
+// alias: 0 the digest goes to a buffer of its own; 1 to the start of the input array; 2 into the input array at offset
+// 5 (or len-4 when shorter); 3 at the end of the input array (offset len-4).  The call is judged on the input as it was
+// when the call started.
+static void do_lh(vh::Out &o, long long ci, uint64_t len, uint64_t seed, int pat = 0, int alias = 0)
 {
     const char *names[3] = {"seq", "avx", "avx512"};
     for (int variant = 0; variant < 3; variant++)
@@ -226,31 +253,40 @@ static void do_lh(vh::Out &o, long long ci, uint64_t len, uint64_t seed)
             continue;
 #endif
         uint64_t n = variant == 2 ? 2 * len : len;
+        uint64_t outw = variant == 2 ? 8 : 4;
+        int al = (alias && n >= outw) ? alias : 0;
         vh::GBuf in = vh::galloc(n, 0);
         std::vector<uint64_t> data(n);
-        fill(data, seed + 17 * (variant == 2));
+        fill_pat(data, seed + 17 * (variant == 2), pat);
         memcpy(in.p, data.data(), n * 8);
-        uint64_t outw = variant == 2 ? 8 : 4;
         vh::GBuf out = vh::galloc(outw, 0xEEEEEEEEEEEEEEEEULL);
+        uint64_t off = al == 1 ? 0 : (al == 2 ? std::min<uint64_t>(5, n - outw) : n - outw);
+        uint64_t *op = al ? in.p + off : out.p;
         perms.clear();
         goldilocks_verif_tracer = tracer;
         if (variant == 0)
-            PoseidonGoldilocks::linear_hash_seq((E *)out.p, (E *)in.p, len);
+            PoseidonGoldilocks::linear_hash_seq((E *)op, (E *)in.p, len);
         else if (variant == 1)
-            PoseidonGoldilocks::linear_hash((E *)out.p, (E *)in.p, len);
+            PoseidonGoldilocks::linear_hash((E *)op, (E *)in.p, len);
 #ifdef __AVX512__
         else
-            PoseidonGoldilocks::linear_hash_avx512((E *)out.p, (E *)in.p, len);
+            PoseidonGoldilocks::linear_hash_avx512((E *)op, (E *)in.p, len);
 #endif
         goldilocks_verif_tracer = nullptr;
+        bool same = true;
+        for (uint64_t i = 0; i < n; i++)
+            if (!(al && i >= off && i < off + outw) && in.p[i] != data[i])
+                same = false;
         o.begin("lh");
         o.num("ci", ci);
         o.str("variant", names[variant]);
         o.num("len", len);
+        o.num("pat", pat);
+        o.num("alias", al);
         o.w64arr("input", data.data(), n);
-        o.boolean("input_same", memcmp(in.p, data.data(), n * 8) == 0);
+        o.boolean("input_same", same);
         o.raw("perms", perms_json());
-        o.w64arr("digest", out.p, outw);
+        o.w64arr("digest", op, outw);
         o.boolean("slack_ok", vh::gslack_ok(in) && vh::gslack_ok(out));
         o.end();
         vh::gfree(in);
@@ -342,7 +378,7 @@ static void do_case(vh::Out &o, long long ci, const std::vector<std::string> &t)
     else if (t[0] == "permiter")
         do_permiter(o, ci, t);
     else if (t[0] == "lh")
-        do_lh(o, ci, vh::parse_u64(t[1]), vh::parse_u64(t[2]));
+        do_lh(o, ci, vh::parse_u64(t[1]), vh::parse_u64(t[2]), t.size() > 3 ? atoi(t[3].c_str()) : 0, t.size() > 4 ? atoi(t[4].c_str()) : 0);
     else if (t[0] == "mt")
         do_mt(o, ci, vh::parse_u64(t[1]), vh::parse_u64(t[2]), vh::parse_u64(t[3]), vh::parse_u64(t[4]), atoi(t[5].c_str()), vh::parse_u64(t[6]));
     else if (t[0] == "consts")
